@@ -77,16 +77,35 @@ macro_rules | `(tactic| pinv_step) => `(tactic| with_reducible apply PInv.guardR
 theorem PInv.frontStep {w : World} (h : PInv ex fr w) (g : Nat) (gd : Guard) : PInv ex fr (frontStep w g gd) := by
   unfold S3.frontStep; pinv
 
-theorem PInv.guardSignal : ∀ (fuel : Nat) {w : World}, PInv ex fr w → ∀ g, PInv ex fr (guardSignal fuel w g) := by
+theorem PInv.condSignal_fst {w : World} (h : PInv ex fr w) (g : Nat) : PInv ex fr (condSignal w g).1 := by
+  simp only [Sim.condSignal]
+  split
+  · exact h
+  · split
+    · exact h
+    · refine PInv.foldl (fun w q h => by pinv) _ ?_
+      exact PInv.foldl (fun w q h => by pinv) _ h
+macro_rules | `(tactic| pinv_step) => `(tactic| with_reducible apply PInv.condSignal_fst)
+
+theorem PInv.ownStep {w : World} (h : PInv ex fr w) (fwd : Bool) (g : Nat) (gd : Guard) : PInv ex fr (ownStep fwd w g gd) := by
+  unfold S3.ownStep
+  split
+  · exact h.condSignal_fst g
+  · exact h.frontStep g gd
+
+theorem PInv.guardSignalF : ∀ (fuel : Nat) (fwd : Bool) {w : World}, PInv ex fr w → ∀ g, PInv ex fr (guardSignalF fwd fuel w g) := by
   intro fuel
   induction fuel with
-  | zero => intro w h g; rw [guardSignal_zero]; exact h.fail _
+  | zero => intro fwd w h g; rw [guardSignalF_zero]; exact h.fail _
   | succ fuel ih =>
-    intro w h g
-    rw [guardSignal_succ]
+    intro fwd w h g
+    rw [guardSignalF_succ]
     split
     · exact h
-    · exact PInv.foldl (fun w o hw => ih hw o) _ (h.frontStep g _)
+    · exact PInv.foldl (fun w o hw => ih true hw o) _ (h.ownStep fwd g _)
+
+theorem PInv.guardSignal (fuel : Nat) {w : World} (h : PInv ex fr w) (g : Nat) : PInv ex fr (guardSignal fuel w g) :=
+  PInv.guardSignalF fuel false h g
 
 theorem PInv.signal {w : World} (h : PInv ex fr w) (g : Nat) : PInv ex fr (signal w g) := PInv.guardSignal 8 h g
 macro_rules | `(tactic| pinv_step) => `(tactic| with_reducible apply PInv.signal)
@@ -142,15 +161,6 @@ theorem PInv.poolRollback {w : World} (h : PInv ex fr w) (p : Pid) (pl ini : Nat
   simp only [Sim.poolRollback]; pinv
 macro_rules | `(tactic| pinv_step) => `(tactic| with_reducible apply PInv.poolRollback)
 
-theorem PInv.condSignal_fst {w : World} (h : PInv ex fr w) (g : Nat) : PInv ex fr (condSignal w g).1 := by
-  simp only [Sim.condSignal]
-  split
-  · exact h
-  · split
-    · exact h
-    · refine PInv.foldl (fun w q h => by pinv) _ ?_
-      exact PInv.foldl (fun w q h => by pinv) _ h
-macro_rules | `(tactic| pinv_step) => `(tactic| with_reducible apply PInv.condSignal_fst)
 
 theorem PInv.setRecording {w : World} (h : PInv ex fr w) (kind idx : Nat) (on : Bool) : PInv ex fr (setRecording w kind idx on) := by
   simp only [Sim.setRecording]; pinv
